@@ -3,6 +3,7 @@ package main
 import (
 	"bytes"
 	"os"
+	"strings"
 	"context"
 	"crypto/ed25519"
 	"encoding/binary"
@@ -243,10 +244,25 @@ func c11Case(c *ctxT, r *gen.R, kind askWorldKind) {
 		closeVictim = r.Intn(nNodes)
 	}
 	var awg sync.WaitGroup
+	crossing := strings.Contains(kind.name, "mbapp") // every node asks at the same moment: equal counters, equal origin times
+	var barrier chan struct{}
 	for i := range recs {
 		from := r.Intn(nNodes)
 		to := (from + 1 + r.Intn(nNodes-1)) % nNodes
 		want := gen.Pick(r, []int{0, 1, 8, 60, 300, 2000})
+		if crossing {
+			from = i % nNodes
+			to = []int{1, 0, 0}[from] // 0 and 1 ask each other in the same round
+			want = gen.Pick(r, []int{300, 2000, 700})
+			if i%nNodes == 0 {
+				if barrier != nil {
+					close(barrier)
+					time.Sleep(3 * time.Millisecond)
+				}
+				barrier = make(chan struct{})
+			}
+		}
+		bar := barrier
 		rec := &askRec{id: uint32(i + 1), from: from, to: to, want: want, buf: want, deadlineMs: 2000}
 		switch r.Intn(8) {
 		case 0:
@@ -271,6 +287,9 @@ func c11Case(c *ctxT, r *gen.R, kind askWorldKind) {
 			actx, cf := context.WithTimeout(ctx, time.Duration(rec.deadlineMs)*time.Millisecond)
 			defer cf()
 			resp := make([]byte, rec.buf)
+			if bar != nil {
+				<-bar
+			}
 			t0 := time.Now()
 			rec.n, rec.err = nodes[rec.from].ask(actx, resp, nodes[rec.to], req)
 			rec.elapsed = time.Since(t0)
@@ -284,6 +303,9 @@ func c11Case(c *ctxT, r *gen.R, kind askWorldKind) {
 		if r.Intn(3) == 0 {
 			time.Sleep(time.Duration(r.Intn(300)) * time.Microsecond)
 		}
+	}
+	if barrier != nil {
+		close(barrier)
 	}
 	awg.Wait()
 	cancel()
